@@ -30,7 +30,7 @@ package xlsx
 // On success: i = number of leading letters, 0 < i < len(ref); column = value of those letters - 1; row = number - 1.
 //@ func ParseCellRef results (col, row, err)
 //@   property C17
-//@   requires ascii: forall k int :: {ref[k]} 0 <= k && k < len(ref) ==> ref[k] < 128
+//@   flags pure
 //@   ensures parsed: !err ==> exists i int :: 0 < i && i < len(ref) && (forall k int :: {ref[k]} 0 <= k && k < i ==> letterByte(ref[k])) && !letterByte(ref[i]) && col == colnumCI(ref, i) - 1 && row == strconv.Atoi(ref[i:len(ref)]) - 1 && row >= 0 && col >= 0
 //@   ensures rejects_no_letters: len(ref) > 0 && !letterByte(ref[0]) ==> err
 //@   ensures rejects_empty: len(ref) == 0 ==> err
@@ -66,23 +66,40 @@ package xlsx
 //@     invariant forall a int, b int :: {r.sheets[a], r.sheets[b]} 0 <= a && a < b && b < len(r.sheets) ==> r.sheets[a].Index < r.sheets[b].Index
 //@     invariant forall k int :: {r.sheets[k]} 0 <= k && k < len(r.sheets) ==> 0 <= r.sheets[k].Index && r.sheets[k].Index < $i && r.sheets[k].Name == r.workbook.Sheets.Sheet[r.sheets[k].Index].Name
 
+// ws = the unmarshalled worksheet (abstract input of the placement).  colOf(cell) = column parsed from the cell reference.
 //@ func (*Reader) parseWorksheet results (res, err)
 //@   property C18, C17
 //@   flags nosafety, readonly
 //@   ensures identity: !err ==> res.Name == name && res.Index == index
+//@   ensures grid_covers_every_addressed_cell: !err ==> forall a int, b int :: {ws.SheetData.Rows[a].Cells[b]} 0 <= a && a < len(ws.SheetData.Rows) && 0 <= b && b < len(ws.SheetData.Rows[a].Cells) && !ParseCellRef$2(ws.SheetData.Rows[a].Cells[b].R) ==> ParseCellRef(ws.SheetData.Rows[a].Cells[b].R) <= res.MaxCol && ws.SheetData.Rows[a].R <= res.MaxRow + 1
+//@   ensures grid_is_dense: !err ==> len(res.Rows) == res.MaxRow + 1 && forall i int :: {res.Rows[i]} 0 <= i && i < len(res.Rows) ==> len(res.Rows[i]) == res.MaxCol + 1
 //@   loop 0:
 //@     invariant same(sheet.Name, name) && sheet.Index == index
+//@   loop 1:
+//@     invariant maxRow >= 0 && maxCol >= 0
+//@     invariant forall a int :: {ws.SheetData.Rows[a]} 0 <= a && a < $i ==> ws.SheetData.Rows[a].R <= maxRow
+//@     invariant forall a int, b int :: {ws.SheetData.Rows[a].Cells[b]} 0 <= a && a < $i && 0 <= b && b < len(ws.SheetData.Rows[a].Cells) && !ParseCellRef$2(ws.SheetData.Rows[a].Cells[b].R) ==> ParseCellRef(ws.SheetData.Rows[a].Cells[b].R) <= maxCol
+//@   loop 2:
+//@     invariant maxCol >= 0 && maxCol >= entry(maxCol)
+//@     invariant forall b int :: {row.Cells[b]} 0 <= b && b < $i && !ParseCellRef$2(row.Cells[b].R) ==> ParseCellRef(row.Cells[b].R) <= maxCol
 //@   loop 3:
-//@     invariant same(sheet.Name, name) && sheet.Index == index
+//@     invariant same(sheet.Name, name) && sheet.Index == index && sheet.MaxRow == maxRow - 1 && sheet.MaxCol == maxCol && len(sheet.Rows) == maxRow
+//@     invariant forall k int :: {sheet.Rows[k]} 0 <= k && k < $i ==> len(sheet.Rows[k]) == maxCol + 1
 //@   loop 4:
-//@     invariant same(sheet.Name, name) && sheet.Index == index
+//@     invariant same(sheet.Name, name) && sheet.Index == index && sheet.MaxRow == maxRow - 1 && sheet.MaxCol == maxCol && len(sheet.Rows) == maxRow && len(sheet.Rows[i]) == maxCol + 1
+//@     invariant forall k int :: {sheet.Rows[k]} 0 <= k && k < i ==> len(sheet.Rows[k]) == maxCol + 1
 //@   loop 5:
-//@     invariant same(sheet.Name, name) && sheet.Index == index
+//@     invariant same(sheet.Name, name) && sheet.Index == index && sheet.MaxRow == maxRow - 1 && sheet.MaxCol == maxCol && len(sheet.Rows) == maxRow
+//@     invariant forall k int :: {sheet.Rows[k]} 0 <= k && k < len(sheet.Rows) ==> len(sheet.Rows[k]) == maxCol + 1
 //@   loop 6:
-//@     invariant same(sheet.Name, name) && sheet.Index == index
+//@     invariant same(sheet.Name, name) && sheet.Index == index && sheet.MaxRow == maxRow - 1 && sheet.MaxCol == maxCol && len(sheet.Rows) == maxRow
+//@     invariant forall k int :: {sheet.Rows[k]} 0 <= k && k < len(sheet.Rows) ==> len(sheet.Rows[k]) == maxCol + 1
 //@   loop 7:
-//@     invariant same(sheet.Name, name) && sheet.Index == index
+//@     invariant same(sheet.Name, name) && sheet.Index == index && sheet.MaxRow == maxRow - 1 && sheet.MaxCol == maxCol && len(sheet.Rows) == maxRow
+//@     invariant forall k int :: {sheet.Rows[k]} 0 <= k && k < len(sheet.Rows) ==> len(sheet.Rows[k]) == maxCol + 1
 //@   loop 8:
-//@     invariant same(sheet.Name, name) && sheet.Index == index
+//@     invariant same(sheet.Name, name) && sheet.Index == index && sheet.MaxRow == maxRow - 1 && sheet.MaxCol == maxCol && len(sheet.Rows) == maxRow
+//@     invariant forall k int :: {sheet.Rows[k]} 0 <= k && k < len(sheet.Rows) ==> len(sheet.Rows[k]) == maxCol + 1
 //@   loop 9:
-//@     invariant same(sheet.Name, name) && sheet.Index == index
+//@     invariant same(sheet.Name, name) && sheet.Index == index && sheet.MaxRow == maxRow - 1 && sheet.MaxCol == maxCol && len(sheet.Rows) == maxRow
+//@     invariant forall k int :: {sheet.Rows[k]} 0 <= k && k < len(sheet.Rows) ==> len(sheet.Rows[k]) == maxCol + 1
